@@ -96,12 +96,17 @@ def _sq_body_stmt(u):
 L_sq_body = Lemma('sq_body', [('u', T.Str)], _sq_body_stmt, induct=('snoc', 'u'))
 
 
+def is_pystr(u):
+    """u is a Python string: no negative (marker) element"""
+    return z3.Not(M.any_fold(T.NEGATIVE).state((0,), u)[0] == 1)
+
+
 def _inert_stmt(u):
     # if no character of u is "not inert", sh reads u literally in the current word
     cs = []
     for q in (START, WORD):
         st, out = sh.run((q, 1), u)
-        cs.append(z3.Implies(z3.Not(not_inert(u)),
+        cs.append(z3.Implies(z3.And(is_pystr(u), z3.Not(not_inert(u))),
                              T.AND(st[0] == z3.If(z3.Length(u) > 0, z3.IntVal(WORD), z3.IntVal(q)),
                                    st[1] == 1, out == u)))
     return T.AND(*cs)
